@@ -40,10 +40,14 @@ pub fn gen_world(seed: u64, idx: u64, s: &dyn SuiteOps) -> World {
     // separation has to come from the inputs, not from the nonce
     let shared_tape_start = b.tape("regstart-shared");
     let shared_tape_fin = b.tape("regfinish-shared");
+    // the same password with a line ending / a blank / a NUL appended: other passwords
+    let pw_twins: Vec<Vec<u8>> = [&b"\n"[..], b"\r\n", b" ", b"\0"].iter().map(|t| [&pw_a[..], t].concat()).collect();
+    let twin = &pw_twins[(idx as usize) % pw_twins.len()];
     let plan: Vec<(u32, &Vec<u8>, usize, bool)> = vec![
         (setup, &pw_a, 0, true),
         (setup, &pw_a, 0, false), // re-registration, same everything, fresh tape
         (setup, &pw_b, 0, true),  // another password, same tape
+        (setup, twin, 0, true),   // the first password plus a trailing line ending / blank / NUL, same tape
         (setup, &pw_a, 1, true),  // another user, same tape
         (setup, &pw_a, 2, true),  // long id
         (setup, &pw_a, 3, true),  // long id differing in the last byte, same tape
